@@ -4,6 +4,7 @@
   pullup and for every DashMap iteration order.
 -/
 import FjallModel.Lemmas.Tracker
+import FjallModel.Lemmas.Conc
 namespace Fjall.Tracker
 
 /-- **Tracker invariant.** In every state reachable by disciplined operations (a nonce is cloned
@@ -50,3 +51,42 @@ example : Reach (runG {} [.open, .open, .publish 4, .open, .close 0, .gc [(0, 1)
     (Reach.step _ _ Reach.init ?_) ?_) ?_) ?_) ?_) ?_ <;> simp [Disciplined, stepG, step, bump, decr]
 
 end Fjall.Tracker
+
+/-! ### the GC watermark under concurrency (Conc model) -/
+namespace Fjall.Conc
+open Fjall Fjall.Spec
+
+/-- **The GC watermark never passes a live view, in every schedule**: with snapshots being opened in
+    two steps (counter, then write floor) under the shared GC lock, writers setting and clearing the
+    write floor, version registrations advancing the visible seqno, and `gc` runs (explicit, after
+    memtable rotations, after ingestions) interleaved in any order, the watermark handed to flushes
+    and compactions is at most the instant of every live snapshot, and at most the instant any
+    snapshot that is being opened will get.  So no version a live view can read is ever collected. -/
+theorem c05_watermark_below_views (progs : List (List Cmd)) (sched : List Tid) (t : Tid) (th : Thread)
+    (hth : (run {} (init progs) sched).threads[t]? = some th) :
+    (∀ i, th.view = some i → (run {} (init progs) sched).wm ≤ i) ∧
+    (∀ v, th.phase = .sLoaded v → (run {} (init progs) sched).wm ≤ instantOf {} (run {} (init progs) sched) v) := by
+  have hi := run_inv {} rfl _ sched (inv_init progs)
+  have ok := hi.thrOk t th hth
+  refine ⟨ok.wmView, ?_⟩
+  intro v hv
+  have hwv := ok.wmLoaded v hv
+  simp only [instantOf, if_true]
+  cases hf : (run {} (init progs) sched).floor with
+  | none => exact hwv
+  | some F =>
+    simp only
+    split
+    · exact hwv
+    · exact hi.wmFloor F hf
+
+/-- the watermark only ever moves up to "lowest live instant − 1" (it is strictly below a live view
+    unless that view's instant is 0) — non-vacuity: a GC with a live snapshot at instant 3 -/
+example :
+    let s := run {} (init [[.write [⟨1, [1], some [1]⟩], .write [⟨1, [1], some [2]⟩], .write [⟨1, [1], some [3]⟩], .gc],
+                           [.snap, .read 1 [1], .close, .gc]])
+      [0,0,0,0,0,0, 0,0,0,0,0,0, 0,0,0,0,0,0, 1,1, 0, 1, 1, 1]
+    s.wm = 2 ∧ s.obs.map (·.res) = [some [3]] ∧ s.threads.all (fun th => th.prog.isEmpty) := by
+  decide
+
+end Fjall.Conc
